@@ -79,7 +79,13 @@ pub fn build_stream(fmt: &'static str, vals: &[V], rng: &mut Rng, vary: bool) ->
         "yaml" => {
             let mut prev_ended = true; // a `...` (or the stream start) precedes: directives allowed
             for (i, v) in vals.iter().enumerate() {
-                let body = val::to_yaml(v, sp(rng))?;
+                let mut body = val::to_yaml(v, sp(rng))?;
+                // the whole document indented by a few columns (block scalars excepted: their indentation
+                // indicators are relative): legal YAML, and the first line's column matters to what follows
+                if vary && rng.chance(1, 5) && !body.contains('|') && !body.contains('>') {
+                    let pad = " ".repeat(rng.range(1, 3) as usize);
+                    body = body.split_inclusive('\n').map(|l| if l.trim().is_empty() { l.to_owned() } else { format!("{pad}{l}") }).collect();
+                }
                 if vary && rng.chance(1, 6) {
                     bytes.extend_from_slice(b"# a comment between documents\n");
                 }
